@@ -114,6 +114,38 @@ def main():
                     rows[0] = b"ab"
                 roundtrip("VarBytes-offsets-retype", columns.VarBytesColumn(write_offsets_cutoff=16), rows, doccount, b"")
                 roundtrip("CompressedBytes-offsets-retype", columns.CompressedBytesColumn(), rows, doccount, b"")
+    # columns of a real segment larger than the compound writer's staging buffer (32 KB): stored values and a sortable
+    # key of every document, compound and loose, one and several segments
+    from whoosh import fields
+    from whoosh.filedb.filestore import RamStorage
+    for compound in (True, False):
+        for ndocs, size in ((150, 700), (40, 5000), (300, 90)):
+            counts["cases"] += 1
+            try:
+                ix = RamStorage().create_index(fields.Schema(key=fields.ID(stored=True, sortable=True), blob=fields.STORED,
+                                                            n=fields.NUMERIC(sortable=True, stored=True)))
+                docs = []
+                w = ix.writer(compound=compound)
+                for i in range(ndocs):
+                    d = {"key": u"k%05d-%s" % (i, "%x" % rnd.getrandbits(64)), "n": (i * 7919) % 100003 - 50000,
+                         "blob": "".join(chr(33 + rnd.randrange(90)) for _ in range(size + (i % 13)))}
+                    docs.append(d)
+                    w.add_document(**d)
+                    if i == ndocs // 2:
+                        w.commit(merge=False)
+                        w = ix.writer(compound=compound)
+                w.commit(merge=False)
+                with ix.reader() as r:
+                    kr, nr = r.column_reader("key"), r.column_reader("n")
+                    for dn in range(ndocs):
+                        sf = r.stored_fields(dn)
+                        if sf != docs[dn] or kr[dn] != docs[dn]["key"] or nr[dn] != docs[dn]["n"]:
+                            fail("C08-large-segment-%s" % ("compound" if compound else "loose"),
+                                 "doc %d of %d (stored ~%d bytes each): stored %r... key column %r num column %r expected key %r num %r"
+                                 % (dn, ndocs, size, str(sf)[:80], kr[dn], nr[dn], docs[dn]["key"], docs[dn]["n"]))
+                            break
+            except Exception as e:
+                fail("C08-large-segment-exception", "%s: %s | %s" % (type(e).__name__, e, traceback.format_exc()[-300:]))
     import shutil
     shutil.rmtree(tmp, ignore_errors=True)
     print(json.dumps({"cases": counts["cases"], "failures": fails}))
